@@ -29,6 +29,7 @@ type Case struct {
 	Rec      *WriteRec         `json:"rec,omitempty"`
 	K        int               `json:"k,omitempty"`        // CanonicalSubsequences k
 	FDBurst  int               `json:"fd_burst,omitempty"` // C18 File: this many stopped walks in a row under a small descriptor budget
+	Stops    []int             `json:"stops,omitempty"`    // C18, long iterations: the stop positions tried (otherwise every position)
 	Trie     *TrieCase         `json:"trie,omitempty"`
 	Regions  *RegionsCase      `json:"regions,omitempty"`
 }
@@ -38,6 +39,7 @@ func (c *Case) Clone() *Case {
 	d := *c
 	d.Input = append([]byte(nil), c.Input...)
 	d.Input2 = append([]byte(nil), c.Input2...)
+	d.Stops = append([]int(nil), c.Stops...)
 	if c.Plan != nil {
 		p := *c.Plan
 		p.Chunks = append([]int(nil), c.Plan.Chunks...)
@@ -88,6 +90,8 @@ func (c *Case) Clone() *Case {
 		r.Starts = append([]int(nil), c.Regions.Starts...)
 		r.Ends = append([]int(nil), c.Regions.Ends...)
 		r.Schedule = append([]int(nil), c.Regions.Schedule...)
+		r.OtherStarts = append([]int(nil), c.Regions.OtherStarts...)
+		r.OtherEnds = append([]int(nil), c.Regions.OtherEnds...)
 		r.Tasks = make([][]RegOp, len(c.Regions.Tasks))
 		for i, t := range c.Regions.Tasks {
 			r.Tasks[i] = append([]RegOp(nil), t...)
